@@ -105,8 +105,12 @@ class Scenario:
     or seconds until the connection is lost.  After the script is exhausted the factory parks forever."""
 
     def __init__(self, script, close_step=None, threshold=None, sleep_sec=None, max_delay=None, horizon=400.0, max_steps=5000,
-                 watch=None, epoch=None) -> None:
+                 watch=None, epoch=None, twin_failures=0) -> None:
         import han.meter_connection as mc
+
+        self.twin_attempts = 0
+        if twin_failures:
+            self._run_twin(mc, twin_failures)
 
         self.mc = mc
         self.script = list(script)
@@ -154,6 +158,39 @@ class Scenario:
         if max_delay is not None:
             self.mgr.back_off_connect_error.max_delay = max_delay
         self.max_tasks = 0
+
+    def _run_twin(self, mc, k: int) -> None:
+        """Another ConnectionManager of the same process, with settings of its own, whose meter was unreachable: k failed
+        attempts, then close().  What it went through must not show in the manager under test."""
+        tl = VLoop()
+        asyncio.set_event_loop(tl)
+        n = [0]
+
+        async def refused():
+            n[0] += 1
+            raise OSError("connection refused")
+
+        twin = mc.ConnectionManager(refused)
+        twin.back_off_connect_error.max_delay = 3
+        twin.connection_lost_back_off_threshold = 1
+        twin.connection_lost_back_off_sleep_sec = 1
+
+        def hook(step, kind):
+            if n[0] >= k:
+                twin.close()
+        tl.hook = hook
+        task = tl.create_task(twin.connect_loop())
+        tl.run_steps(4000, 10_000.0)
+        self.twin_attempts = n[0]
+        for t in asyncio.all_tasks(tl):
+            t.cancel()
+        tl.hook = None
+        try:
+            tl.run_steps(tl.step + 200, 10**12)
+        except BaseException:  # noqa: BLE001
+            pass
+        tl.close()
+        del task
 
     async def _factory(self):
         loop = self.loop
